@@ -21,7 +21,8 @@ RULE = ("Registries of 0..6 services (5 type spellings incl. a subtype and an up
         "the replies off the simulated wire. Oracle: ResponderModel (vlib/models.py). Plus 'update races': a QM query 1..900 ms "
         "before async_update_service / async_unregister_service (answer still queued for aggregation or the one-second "
         "protection when the registry changes): nothing that leaves the host after the change may carry the replaced SRV/TXT "
-        "with a positive TTL. Distinct = (question type, name relation, "
+        "with a positive TTL. Updates re-submit either a fresh ServiceInfo or the registered object changed in place (TTLs, port, "
+        "weight, priority, optionally the addresses); names include capitals, non-ASCII and casefold-special letters. Distinct = (question type, name relation, "
         "known-answer boundary, registry-op history class, path) tuples.")
 ASSUMPTIONS = ["NSEC owner name is compared per service (the library names it after the instance)",
                "ANY on host names and NSEC known answers: soundness only (outside the completeness claim)"]
